@@ -77,17 +77,18 @@ func runC15(p *eng.Prog, r *eng.Report, tier string) {
 			}
 			g := f.Graph()
 			for _, rs := range g.Returns {
-				if len(rs.Results) != 1 {
+				res := retResults(f, rs)
+				if len(res) != 1 {
 					continue
 				}
 				pt, _ := g.Where(rs)
-				nrm := f.Norm(rs.Results[0], &pt)
+				nrm := f.Norm(res[0], &pt)
 				if !eng.Glob("encoding/xml.Decoder.Decode[*](*)", nrm) && !eng.Glob("encoding/xml.Decoder.DecodeElement[*](*)", nrm) {
 					if strings.Contains(nrm, "encoding/xml.Decoder.Decode") {
 						n++
 						// handed to a helper: the helper answers numeric errors with a stanza error
 						okh := false
-						if cl, ok := ast.Unparen(rs.Results[0]).(*ast.CallExpr); ok {
+						if cl, ok := ast.Unparen(res[0]).(*ast.CallExpr); ok {
 							if fo, ok := typeutil.Callee(f.Info(), cl).(*types.Func); ok {
 								if h := c.p.FnOf(fo.Origin()); h != nil && h.Body != nil {
 									okh = h.ContainsCall(h.Body, "errors.As") != nil && (len(h.CallsDeep("stanza.IQ.Error")) > 0 || len(h.CallsDeep("ibb.errorResponder.Error")) > 0)
@@ -1027,7 +1028,7 @@ func c15EveryPacketHandled(c *cx, id string) {
 					continue
 				}
 				n++
-				okr := f.ContainsCall(rs, "ibb.handlePayload") != nil || f.ContainsCall(rs, "ibb.refuseMalformed") != nil
+				okr := retContainsCall(f, rs, "ibb.handlePayload") != nil || retContainsCall(f, rs, "ibb.refuseMalformed") != nil
 				c.r.Check(id, f, "return after a data packet was decoded", "O: a decoded data packet is handed to handlePayload (which checks and advances the sequence number) or refused as malformed - never dropped by the carrier's handler", rs.Pos(), okr, "the packet is dropped here: the expected sequence number is not advanced and every later packet is refused")
 			}
 		}
